@@ -168,6 +168,8 @@ def merge(results):
         p = subprocess.run([os.path.join(BUILD, "vh"), "merge-hashes"] + hashes, capture_output=True, text=True)
         if p.returncode == 0:
             distinct = int(p.stdout.strip() or 0)
+    if distinct == 0 and isinstance(agg["extra"].get("sum_distinct_cases"), (int, float)):
+        distinct = int(agg["extra"]["sum_distinct_cases"])
     agg["distinct_nontrivial"] = distinct
     return agg
 
